@@ -216,7 +216,9 @@ def check(ctx: Ctx) -> None:
         ul = repo.func(f"{GB}.Unserializer.load")
         cfg = build_cfg(repo, ul, Oracle(repo, ul, precise=True))
         tests = [n for n in cfg.nodes if n.kind == "test" and "DUMPFORMAT_VERSION" in unparse(n.ast)]
-        ob.require(len(tests) == 1, "version comparison not found in Unserializer.load")
+        if not tests:
+            ob.violation(ul, ul.node, "Unserializer.load never compares the version byte with DUMPFORMAT_VERSION: foreign-version data is not rejected", construct="no version comparison")
+            raise AnalysisError("C12.e: remaining sub-checks need the version comparison")
         t = tests[0]
         neq = isinstance(t.ast, ast.Compare) and isinstance(t.ast.ops[0], ast.NotEq)
         bad = [cfg.nodes[m] for (m, l) in cfg.succ[t.id] if l == ("true" if neq else "false")]
